@@ -870,8 +870,9 @@ class Evaluator(CallMixin, StmtMixin):
         is_full_view = kinds == elem_kinds
         if isinstance(idx, int) and idx >= 0:
             n = self.view_count_dom(coll, kinds)
-            # feasibility of the index
-            if self.cmp_count(coll, kinds, "<=", idx):
+            # feasibility of the index (inside a loop over these very elements there is at least one)
+            in_own_loop = idx == 0 and any(r.__dict__.get("active") and _iterates(r.iter_value, coll, kinds, elem_kinds) for r in run.loops)
+            if not in_own_loop and self.cmp_count(coll, kinds, "<=", idx):
                 self.raise_exc("IndexError", node)
             if is_full_view and not is_vis_view and idx == 0:
                 # first element of the unfiltered list: a metadata node or the first visible child
@@ -1754,6 +1755,15 @@ def _nm(o: Any) -> str:
 
 def _origin(o: Any) -> str:
     return getattr(o, "origin", "new")
+
+
+def _iterates(it: Any, coll: Any, kinds: Any, elem_kinds: Any) -> bool:
+    """The loop iterable `it` runs over the elements of `coll` with a kind in `kinds` (or a subset of them)."""
+    if isinstance(it, SList) and it.mode == "view" and it.base is coll:
+        return frozenset(it.kinds if it.kinds is not None else elem_kinds) <= frozenset(kinds)
+    if it is coll:
+        return frozenset(elem_kinds) <= frozenset(kinds)
+    return False
 
 
 def _elem_origin(o: Any) -> str:
